@@ -53,6 +53,9 @@ func Gen(t *rapid.T, b Bias) Case {
 	c.RecvBu = rapid.SampledFrom([]uint{0, 0, 4}).Draw(t, "recvBuffer")
 	// subject configuration: a non-empty subset of the servers
 	size := rapid.IntRange(1, n).Draw(t, "cfgSize")
+	if s2 := rapid.IntRange(1, n).Draw(t, "cfgSize2"); s2 > size {
+		size = s2 // biased towards larger configurations
+	}
 	perm := rapid.Permutation(seq(n)).Draw(t, "cfgPerm")
 	c.Cfg = append([]int(nil), perm[:size]...)
 	sortInts(c.Cfg)
@@ -188,6 +191,13 @@ func Gen(t *rapid.T, b Bias) Case {
 			pos := rapid.IntRange(0, len(steps)).Draw(t, fmt.Sprintf("stopPos%d", i))
 			steps = insertStep(steps, pos, Step{Op: "stop", Node: s})
 		}
+	}
+	if b.AllowStop && len(targets) > 0 && rapid.IntRange(0, 3).Draw(t, "prestop") == 0 {
+		// servers stopped after the manager connected but before the call is issued
+		k := rapid.IntRange(1, len(targets)).Draw(t, "nprestop")
+		pp := rapid.Permutation(targets).Draw(t, "prestopPerm")
+		c.PreStop = append([]int(nil), pp[:k]...)
+		sortInts(c.PreStop)
 	}
 	// background calls
 	if b.Background {
